@@ -81,7 +81,7 @@ func decFmt(tr *Tracer, p, s int, neg bool, ds []int) {
 }
 
 func decParse(tr *Tracer, p, s int, text string, via int) {
-	ev := Ev{"ev": "Parse", "p": p, "s": s, "text": ints([]byte(text)), "ok": false, "neg": false, "ds": []int{}, "panic": false}
+	ev := Ev{"ev": "Parse", "p": p, "s": s, "text": ints([]byte(text)), "ok": false, "neg": false, "ds": []int{}, "panic": false, "kept": true}
 	func() {
 		defer func() {
 			if recover() != nil {
@@ -95,7 +95,12 @@ func decParse(tr *Tracer, p, s int, text string, via int) {
 		} else {
 			dec, err = asetypes.NewDecimal(p, s)
 			if err == nil {
+				// the decimal holds a value already: an input that is rejected leaves it alone
+				dec.SetInt64(7)
 				err = dec.SetString(text)
+				if err != nil {
+					ev["kept"] = dec.Int().Cmp(big.NewInt(7)) == 0
+				}
 			}
 		}
 		if err == nil {
